@@ -17,9 +17,18 @@
 package c12
 
 import (
+	"bufio"
+	"bytes"
 	"context"
+	"crypto/ecdsa"
+	"crypto/elliptic"
+	crand "crypto/rand"
+	"crypto/tls"
+	"crypto/x509"
+	"crypto/x509/pkix"
 	"errors"
 	"fmt"
+	"math/big"
 	"math/rand"
 	"net"
 	"runtime"
@@ -49,6 +58,16 @@ type clientPlan struct {
 	CloseReq   bool   `json:"close_req,omitempty"` // last request carries Connection: close
 	StartDelay int    `json:"start_delay,omitempty"`
 	CloseErr   bool   `json:"close_err,omitempty"` // the server-side conn's Close reports an error (the socket is closed all the same)
+	// TLS: the server side of this connection is a *tls.Conn (tls.Server over the in-memory conn); the client speaks
+	// TLS too, offering ALPN Proto ("" none, "h1" http/1.1, "x" proto-x, "both"), unless PlainToTLS (garbage kind:
+	// plain bytes sent to the TLS server side, the handshake fails).
+	TLS         bool   `json:"tls,omitempty"`
+	Proto       string `json:"alpn,omitempty"`
+	PlainToTLS  bool   `json:"plain_to_tls,omitempty"`
+	XMode       string `json:"x_mode,omitempty"`       // protox: how the NextProto handler holds the connection (i, y, g0..g2, gb)
+	XErr        bool   `json:"x_err,omitempty"`        // protox: the NextProto handler returns an error
+	First       bool   `json:"first,omitempty"`        // arrives in the first wave (before the bulk of the clients)
+	DeadlineErr bool   `json:"deadline_err,omitempty"` // Set*Deadline on the server-side conn fails (only matters with Timeouts)
 }
 
 type caseSpec struct {
@@ -70,6 +89,14 @@ type caseSpec struct {
 	// TwoBurst (Serve mode, same running Serve loop): after the first workload is over and the counters read zero,
 	// an idle gap of GapDurations x MaxIdleWorkerDuration lets the pool's cleaner retire the workers; then
 	// Burst2 = Concurrency+k connections arrive with handlers held on a gate of their own.
+	// TLS: a NextProto handler for ALPN "proto-x" is registered; part of the connections are TLS (HTTP/1 over TLS
+	// or proto-x), the rest plain, on the same Server. Timeouts: ReadTimeout/WriteTimeout = 1h (never fires) so that
+	// the deadline-setting calls are made; connections with DeadlineErr then take the early-return paths.
+	TLS      bool `json:"tls,omitempty"`
+	Timeouts bool `json:"timeouts,omitempty"`
+	// XFirst (TLS cases): that many proto-x connections arrive before everything else, while slots are free, so that
+	// connections really are served through the NextProto handler.
+	XFirst       int  `json:"x_first,omitempty"`
 	TwoBurst     bool `json:"two_burst,omitempty"`
 	GapDurations int  `json:"gap_durations,omitempty"`
 	Burst2       int  `json:"burst2,omitempty"`
@@ -134,6 +161,53 @@ func genCase(rnd *rand.Rand) caseSpec {
 			}
 		}
 	}
+	if cs.Mode == "serveconn" && rnd.Intn(2) == 0 {
+		// many per-IP rejections against a small Concurrency: a slot leaked on the 429 path soon leaves none
+		cs.Conc = 1 + rnd.Intn(2)
+		cs.PerIP = 1
+	}
+	cs.TLS = rnd.Intn(3) == 0
+	cs.Timeouts = rnd.Intn(3) == 0
+	for i := range cs.Clients {
+		p := &cs.Clients[i]
+		if cs.TLS {
+			switch p.Kind {
+			case "quick", "gated", "pipelined", "hijack", "kaidle":
+				if rnd.Intn(4) == 0 {
+					// becomes a proto-x connection (leaves the HTTP/1 loop through Server.NextProto)
+					if p.Kind != "kaidle" {
+						p.XMode = []string{"i", "y", fmt.Sprintf("g%d", p.Gate)}[rnd.Intn(3)]
+						if p.Kind == "gated" || p.Kind == "hijack" {
+							p.XMode = fmt.Sprintf("g%d", p.Gate)
+						}
+						p.Kind, p.TLS, p.Proto, p.XErr = "protox", true, []string{"x", "both"}[rnd.Intn(2)], rnd.Intn(3) == 0
+					}
+				} else if rnd.Intn(3) != 0 {
+					p.TLS, p.Proto = true, []string{"", "h1", "h1"}[rnd.Intn(3)]
+				}
+			case "garbage":
+				if rnd.Intn(2) == 0 {
+					p.TLS, p.PlainToTLS = true, true
+				} else if rnd.Intn(2) == 0 {
+					p.TLS, p.Proto = true, "h1"
+				}
+			}
+		}
+		if cs.Timeouts && rnd.Intn(8) == 0 {
+			p.DeadlineErr = true
+		}
+	}
+	if cs.TLS {
+		cs.XFirst = 1 + rnd.Intn(cs.Conc+1)
+		var xf []clientPlan
+		for i := 0; i < cs.XFirst; i++ {
+			g := rnd.Intn(nGates)
+			xf = append(xf, clientPlan{Kind: "protox", IP: i % cs.NIPs, Gate: g, NReq: 1, TLS: true, Proto: []string{"x", "both"}[rnd.Intn(2)],
+				XMode: []string{"i", "y", fmt.Sprintf("g%d", g)}[rnd.Intn(3)], XErr: rnd.Intn(3) == 0, CloseErr: rnd.Intn(5) == 0, First: true,
+				DeadlineErr: cs.Timeouts && rnd.Intn(8) == 0})
+		}
+		cs.Clients = append(xf, cs.Clients...)
+	}
 	if cs.Mode == "serve" && !cs.Shutdown && rnd.Intn(2) == 0 {
 		cs.TwoBurst = true
 		cs.IdleWorkerMs = 20 + rnd.Intn(31)
@@ -150,6 +224,9 @@ func genCase(rnd *rand.Rand) caseSpec {
 func (cs *caseSpec) lateDependent(p clientPlan) bool {
 	if p.Kind == "kaidle" {
 		return true
+	}
+	if p.Kind == "protox" {
+		return cs.LateGate >= 0 && p.XMode == fmt.Sprintf("g%d", cs.LateGate)
 	}
 	return cs.LateGate >= 0 && p.Gate == cs.LateGate && (p.Kind == "gated" || p.Kind == "pipelined" || p.Kind == "hijack")
 }
@@ -184,6 +261,51 @@ func (l *memListener) Accept() (net.Conn, error) {
 func (l *memListener) Close() error   { l.once.Do(func() { close(l.done) }); return nil }
 func (l *memListener) Addr() net.Addr { return &net.TCPAddr{IP: net.IPv4(10, 9, 9, 9), Port: 80} }
 
+var (
+	certOnce sync.Once
+	testCert tls.Certificate
+	certErr  error
+)
+
+func loadCert() (tls.Certificate, error) {
+	certOnce.Do(func() {
+		// an ECDSA P-256 certificate: fasthttp.GenerateTestCertificate makes an RSA-2048 one whose signing costs
+		// milliseconds per handshake under the race detector; the certificate type is irrelevant to the property
+		key, err := ecdsa.GenerateKey(elliptic.P256(), crand.Reader)
+		if err != nil {
+			certErr = err
+			return
+		}
+		tmpl := &x509.Certificate{SerialNumber: big.NewInt(12), Subject: pkix.Name{CommonName: "localhost"},
+			NotBefore: time.Now().Add(-time.Hour), NotAfter: time.Now().Add(24 * time.Hour),
+			KeyUsage: x509.KeyUsageDigitalSignature, ExtKeyUsage: []x509.ExtKeyUsage{x509.ExtKeyUsageServerAuth}, DNSNames: []string{"localhost"}}
+		der, err := x509.CreateCertificate(crand.Reader, tmpl, tmpl, &key.PublicKey, key)
+		if err != nil {
+			certErr = err
+			return
+		}
+		testCert = tls.Certificate{Certificate: [][]byte{der}, PrivateKey: key}
+	})
+	return testCert, certErr
+}
+
+// mixListener hands out the accepted in-memory conn as it is, or wrapped in tls.Server, as its client planned.
+type mixListener struct {
+	*memListener
+	cfg *tls.Config
+}
+
+func (l *mixListener) Accept() (net.Conn, error) {
+	c, err := l.memListener.Accept()
+	if err != nil {
+		return nil, err
+	}
+	if sc, ok := c.(*srvConn); ok && sc.plan.TLS && l.cfg != nil {
+		return tls.Server(sc, l.cfg), nil
+	}
+	return c, nil
+}
+
 // srvConn is the server end of one connection.
 type srvConn struct {
 	net.Conn
@@ -205,10 +327,38 @@ type srvConn struct {
 }
 
 func (c *srvConn) Read(p []byte) (int, error) {
-	if c.readStarted.CompareAndSwap(false, true) {
-		c.cm.onFirstRead(c)
+	if c.readStarted.CompareAndSwap(false, true) && !c.plan.TLS {
+		// (the first Read of a TLS connection may be the handshake that the accept loop performs in order to write a
+		// 503/429: TLS connections enter the gauges when a handler runs for them instead)
+		c.cm.enterServed(c)
 	}
 	return c.Conn.Read(p)
+}
+
+var errDeadline = errors.New("c12 conn: setting the deadline failed (injected)")
+
+func (c *srvConn) SetDeadline(t time.Time) error {
+	if c.plan.DeadlineErr {
+		c.cm.deadlineErrs.Add(1)
+		return errDeadline
+	}
+	return c.Conn.SetDeadline(t)
+}
+
+func (c *srvConn) SetReadDeadline(t time.Time) error {
+	if c.plan.DeadlineErr {
+		c.cm.deadlineErrs.Add(1)
+		return errDeadline
+	}
+	return c.Conn.SetReadDeadline(t)
+}
+
+func (c *srvConn) SetWriteDeadline(t time.Time) error {
+	if c.plan.DeadlineErr {
+		c.cm.deadlineErrs.Add(1)
+		return errDeadline
+	}
+	return c.Conn.SetWriteDeadline(t)
 }
 
 var (
@@ -262,13 +412,15 @@ type caseMon struct {
 	hjStarted, hjReturned                         atomic.Int64
 	handlerCalls, unknownPaths                    atomic.Int64
 	closeErrs                                     atomic.Int64 // server-side Close calls that returned an error
+	deadlineErrs                                  atomic.Int64 // Set*Deadline calls that returned the injected error
+	xCalls, xReadErrs                             atomic.Int64 // NextProto handler invocations / those that could not read their line
 
 	vmu   sync.Mutex
 	viols map[string]string
 	incon []string
 
 	// client-side tallies
-	n200, n400, n503, n429, nOther, nNoResp, nUnobserved atomic.Int64
+	n200, n400, n503, n429, nOther, nNoResp, nUnobserved, nXOK atomic.Int64
 }
 
 func (cm *caseMon) violate(key, what string) {
@@ -297,8 +449,12 @@ func storeMax(a *atomic.Int32, v int32) {
 	}
 }
 
-func (cm *caseMon) onFirstRead(c *srvConn) {
-	c.state.Store(3)
+// enterServed: the connection starts counting as "being served" (first server Read of a plain connection, or a
+// handler running for a TLS one). Idempotent.
+func (cm *caseMon) enterServed(c *srvConn) {
+	if !c.state.CompareAndSwap(0, 3) {
+		return
+	}
 	v := cm.sGauge.Add(1)
 	storeMax(&cm.sMax, v)
 	if int(v) > cm.spec.Conc {
@@ -365,16 +521,7 @@ func (cm *caseMon) handler(ctx *fasthttp.RequestCtx) {
 		return
 	}
 	c := cm.conns[id]
-	c.handlers.Add(1)
-	v := cm.hGauge.Add(1)
-	storeMax(&cm.hMax, v)
-	if int(v) > cm.spec.Conc {
-		cm.violate("handlers-exceed-concurrency", fmt.Sprintf("%d handlers running at once, Concurrency=%d (conn %d, mode %s)", v, cm.spec.Conc, id, cm.spec.Mode))
-	}
-	iv := cm.ipH[c.ip].Add(1)
-	if cm.spec.PerIP > 0 && int(iv) > cm.spec.PerIP {
-		cm.violate("perip-handlers-exceed-limit", fmt.Sprintf("%d handlers running at once for ip#%d, MaxConnsPerIP=%d (conn %d)", iv, c.ip, cm.spec.PerIP, id))
-	}
+	cm.enterHandler(c, "handlers")
 	mode := parts[4]
 	switch {
 	case mode == "y":
@@ -401,11 +548,72 @@ func (cm *caseMon) handler(ctx *fasthttp.RequestCtx) {
 		})
 	}
 	ctx.SetBodyString("ok")
-	cm.ipH[c.ip].Add(-1)
-	cm.hGauge.Add(-1)
+	cm.exitHandler(c)
 	if mode == "hj" {
 		cm.leaveServed(c)
 	}
+}
+
+// enterHandler / exitHandler bracket the time a user handler (HTTP handler or NextProto handler) runs for c.
+func (cm *caseMon) enterHandler(c *srvConn, what string) {
+	c.handlers.Add(1)
+	if c.plan.TLS {
+		cm.enterServed(c)
+	}
+	v := cm.hGauge.Add(1)
+	storeMax(&cm.hMax, v)
+	if int(v) > cm.spec.Conc {
+		cm.violate("handlers-exceed-concurrency", fmt.Sprintf("%d %s running at once, Concurrency=%d (conn %d, mode %s)", v, what, cm.spec.Conc, c.id, cm.spec.Mode))
+	}
+	iv := cm.ipH[c.ip].Add(1)
+	if cm.spec.PerIP > 0 && int(iv) > cm.spec.PerIP {
+		cm.violate("perip-handlers-exceed-limit", fmt.Sprintf("%d %s running at once for ip#%d, MaxConnsPerIP=%d (conn %d)", iv, what, c.ip, cm.spec.PerIP, c.id))
+	}
+}
+
+func (cm *caseMon) exitHandler(c *srvConn) {
+	cm.ipH[c.ip].Add(-1)
+	cm.hGauge.Add(-1)
+}
+
+var errProtoX = errors.New("proto-x handler: finished with an error (broken pipe)")
+
+// protoHandler is registered with Server.NextProto("proto-x", ...): line protocol "X <id> <mode>\n" -> "XOK\n".
+func (cm *caseMon) protoHandler(nc net.Conn) error {
+	cm.xCalls.Add(1)
+	line, err := bufio.NewReader(nc).ReadString('\n')
+	if err != nil {
+		cm.xReadErrs.Add(1)
+		return err
+	}
+	f := strings.Fields(line)
+	if len(f) != 3 || f[0] != "X" {
+		cm.unknownPaths.Add(1)
+		return nil
+	}
+	id, err := strconv.Atoi(f[1])
+	if err != nil || id < 0 || id >= len(cm.conns) {
+		cm.unknownPaths.Add(1)
+		return nil
+	}
+	c := cm.conns[id]
+	cm.enterHandler(c, "handlers (NextProto)")
+	switch mode := f[2]; {
+	case mode == "y":
+		for i := 0; i < 3; i++ {
+			runtime.Gosched()
+		}
+	case mode == "gb":
+		<-cm.burstGate
+	case len(mode) == 2 && mode[0] == 'g':
+		<-cm.gates[int(mode[1]-'0')%nGates]
+	}
+	nc.Write([]byte("XOK\n")) //nolint:errcheck
+	cm.exitHandler(c)
+	if c.plan.XErr {
+		return errProtoX
+	}
+	return nil
 }
 
 func (cm *caseMon) connState(_ net.Conn, st fasthttp.ConnState) {
@@ -430,6 +638,7 @@ func (nopLogger) Printf(string, ...any) {}
 // ---------------------------------------------------------------- clients
 
 type clientResult struct {
+	xok      bool // proto-x answer read
 	statuses []int
 	eof      bool
 	trailing int // bytes after the last complete response
@@ -483,6 +692,22 @@ func (cm *caseMon) runClient(sc *srvConn, cc net.Conn, arrived func()) (res clie
 	p := sc.plan
 	id := sc.id
 	var buf []byte
+	if p.TLS && !p.PlainToTLS {
+		cfg := &tls.Config{InsecureSkipVerify: true} //nolint:gosec
+		switch p.Proto {
+		case "h1":
+			cfg.NextProtos = []string{"http/1.1"}
+		case "x":
+			cfg.NextProtos = []string{"proto-x"}
+		case "both":
+			cfg.NextProtos = []string{"http/1.1", "proto-x"}
+		}
+		tc := tls.Client(cc, cfg)
+		// handshake right away: the server handshakes when a worker takes the connection, or in the accept loop when
+		// it writes a 503/429
+		tc.Handshake() //nolint:errcheck
+		cc = tc
+	}
 	finish := func(msgs []*h1.Msg, eof bool) {
 		res.observed = true
 		res.eof = eof
@@ -575,6 +800,12 @@ func (cm *caseMon) runClient(sc *srvConn, cc net.Conn, arrived func()) (res clie
 		finish(msgs, eof)
 	case "burst2":
 		converse([]string{reqText(id, 0, "gb", false)})
+	case "protox":
+		cc.Write([]byte(fmt.Sprintf("X %d %s\n", id, p.XMode))) //nolint:errcheck
+		arrived()
+		msgs, eof := readMsgs(cc, sc, &buf, 1<<30) // either "XOK\n" or an HTTP 503/429, then the close
+		finish(msgs, eof)
+		res.xok = len(msgs) == 0 && bytes.Contains(buf, []byte("XOK\n"))
 	case "probe":
 		cc.Write([]byte(reqText(id, 0, "i", true))) //nolint:errcheck
 		arrived()
@@ -608,6 +839,10 @@ const (
 	quiesceCap = 30 * time.Second // harness quiescence; firing = inconclusive
 	settleCap  = 10 * time.Second // after quiescence only a handful of instructions separate the counters from zero
 )
+
+// curSettleCap is settleCap until a run has its first refuted batch; the rest of that (already violated) run then
+// waits 2 s per refuted case so that more than a handful of cases can still be judged before it is cut short.
+var curSettleCap atomic.Int64
 
 func pause(n int) {
 	switch {
@@ -681,6 +916,22 @@ func runCase(idx int, spec caseSpec) *caseOut {
 		NoDefaultServerHeader: true,
 	}
 	cm.srv = s
+	if spec.Timeouts {
+		s.ReadTimeout, s.WriteTimeout = time.Hour, time.Hour // never fire; make the server call Set*Deadline
+	}
+	var srvTLS *tls.Config
+	if spec.TLS {
+		cert, err := loadCert()
+		if err != nil {
+			cm.inconclusive("cannot make a test certificate: " + err.Error())
+			return out
+		}
+		s.NextProto("proto-x", cm.protoHandler)
+		s.TLSConfig.NextProtos = append(s.TLSConfig.NextProtos, "http/1.1")
+		s.TLSConfig.Certificates = []tls.Certificate{cert}
+		s.TLSConfig.SessionTicketsDisabled = true
+		srvTLS = s.TLSConfig.Clone() // as ServeTLS does
+	}
 	n := len(spec.Clients)
 	total := n + spec.NIPs + spec.Burst2 // one probe connection per IP is used after quiescence; then the second burst
 	newListener := func() *memListener {
@@ -699,10 +950,17 @@ func runCase(idx int, spec caseSpec) *caseOut {
 		mk(i, p)
 	}
 	for ip := 0; ip < spec.NIPs; ip++ {
-		mk(n+ip, clientPlan{Kind: "probe", IP: ip, NReq: 1, CloseErr: ip%2 == 1})
+		mk(n+ip, clientPlan{Kind: "probe", IP: ip, NReq: 1, CloseErr: ip%2 == 1, TLS: spec.TLS && ip%2 == 0, Proto: "h1"})
 	}
 	for j := 0; j < spec.Burst2; j++ {
-		mk(n+spec.NIPs+j, clientPlan{Kind: "burst2", IP: j % spec.NIPs, NReq: 1, CloseErr: j%4 == 3})
+		bp := clientPlan{Kind: "burst2", IP: j % spec.NIPs, NReq: 1, CloseErr: j%4 == 3}
+		switch {
+		case spec.TLS && j%3 == 0:
+			bp.Kind, bp.TLS, bp.Proto, bp.XMode, bp.XErr = "protox", true, "x", "gb", j%2 == 0
+		case spec.TLS && j%3 == 1:
+			bp.TLS, bp.Proto = true, "h1"
+		}
+		mk(n+spec.NIPs+j, bp)
 	}
 	out.results = make([]clientResult, total)
 	startServe := func(l *memListener) chan struct{} {
@@ -714,7 +972,7 @@ func runCase(idx int, spec caseSpec) *caseOut {
 					cm.violate("panic", fmt.Sprintf("Serve panicked: %v\n%s", e, mon.Stacks()))
 				}
 			}()
-			s.Serve(l) //nolint:errcheck
+			s.Serve(&mixListener{memListener: l, cfg: srvTLS}) //nolint:errcheck
 		}()
 		return done
 	}
@@ -756,7 +1014,11 @@ func runCase(idx int, spec caseSpec) *caseOut {
 							cm.violate("panic", fmt.Sprintf("ServeConn panicked: %v\n%s", e, mon.Stacks()))
 						}
 					}()
-					err := s.ServeConn(sc)
+					var nc net.Conn = sc
+					if sc.plan.TLS && srvTLS != nil {
+						nc = tls.Server(sc, srvTLS)
+					}
+					err := s.ServeConn(nc)
 					es := "nil"
 					if err != nil {
 						es = err.Error()
@@ -798,13 +1060,17 @@ func runCase(idx int, spec caseSpec) *caseOut {
 		}
 		stuck(what)
 	}
-	if spec.Shutdown {
-		// the keep-alive connections arrive first and have their one request answered (or are rejected)
-		for i, p := range spec.Clients {
-			if p.Kind == "kaidle" {
-				launch(i, ln)
-			}
+	// first wave: the keep-alive connections of a Shutdown case have their one request answered (or are rejected);
+	// the leading proto-x connections reach their NextProto handler (or are rejected / end)
+	firstWave := func(p clientPlan) bool { return p.Kind == "kaidle" || p.First }
+	nfirst := 0
+	for i, p := range spec.Clients {
+		if firstWave(p) {
+			launch(i, ln)
+			nfirst++
 		}
+	}
+	if nfirst > 0 {
 		if !mon.Watchdog(quiesceCap, func() {
 			for i, p := range spec.Clients {
 				if p.Kind == "kaidle" {
@@ -815,9 +1081,20 @@ func runCase(idx int, spec caseSpec) *caseOut {
 			stuck("keep-alive clients did not get their first response")
 			return out
 		}
+		if !pollUntil(quiesceCap, func() bool {
+			for i, p := range spec.Clients {
+				if c := cm.conns[i]; p.First && c.handlers.Load() == 0 && c.closes.Load() == 0 {
+					return false
+				}
+			}
+			return true
+		}) {
+			stuck("leading proto-x connections were neither handled nor closed")
+			return out
+		}
 	}
 	for i, p := range spec.Clients {
-		if !(spec.Shutdown && p.Kind == "kaidle") {
+		if !firstWave(p) {
 			launch(i, ln)
 		}
 	}
@@ -860,7 +1137,7 @@ func runCase(idx int, spec caseSpec) *caseOut {
 					shutErr <- fmt.Errorf("panic: %v", e)
 				}
 			}()
-			ctx, cancel := context.WithTimeout(context.Background(), 2*quiesceCap)
+			ctx, cancel := context.WithTimeout(context.Background(), quiesceCap)
 			defer cancel()
 			shutErr <- s.ShutdownWithContext(ctx)
 		}()
@@ -870,6 +1147,18 @@ func runCase(idx int, spec caseSpec) *caseOut {
 		}
 		var serr error
 		if !mon.Watchdog(3*quiesceCap, func() { serr = <-shutErr }) || serr != nil {
+			// Shutdown waits for s.open == 0. If the harness sees every connection closed by the server and every
+			// hijack handler returned, nothing is open: a Shutdown that still does not return refutes "open returns to zero".
+			allClosed := cm.hjStarted.Load() == cm.hjReturned.Load()
+			for _, c := range cm.conns {
+				if c.launched.Load() && c.closes.Load() == 0 {
+					allClosed = false
+				}
+			}
+			if allClosed && errors.Is(serr, context.DeadlineExceeded) {
+				cm.violate("shutdown-does-not-return-with-nothing-open", fmt.Sprintf("Shutdown still waiting %v after it was called although every connection was closed by the server: GetOpenConnectionsCount()=%d GetCurrentConcurrency()=%d; mode=%s Concurrency=%d MaxConnsPerIP=%d tls=%v NextProto handler calls=%d", quiesceCap, s.GetOpenConnectionsCount(), s.GetCurrentConcurrency(), spec.Mode, spec.Conc, spec.PerIP, spec.TLS, cm.xCalls.Load()))
+				out.settleRefuted = true
+			}
 			clientsStuck(fmt.Sprintf("Shutdown did not complete (err=%v, open=%d)", serr, s.GetOpenConnectionsCount()))
 			return out
 		}
@@ -936,31 +1225,32 @@ func runCase(idx int, spec caseSpec) *caseOut {
 			sum, _ := perIPSum(fasthttp.VerifPerIPCounts(s))
 			return s.GetCurrentConcurrency() == 0 && s.GetOpenConnectionsCount() == 0 && sum == 0
 		}
-		if !pollUntil(settleCap, zero) {
+		capNow := time.Duration(curSettleCap.Load())
+		if !pollUntil(capNow, zero) {
 			out.settleRefuted = true
 		}
 		conc, open := s.GetCurrentConcurrency(), s.GetOpenConnectionsCount()
 		sum, perip := perIPSum(fasthttp.VerifPerIPCounts(s))
-		ctxd = fmt.Sprintf("mode=%s Concurrency=%d MaxConnsPerIP=%d clients=%d shutdown=%v (idle keep-alive conns at Shutdown: %d) server-side Close errors=%d; ConnState new=%d closed=%d hijacked=%d; hijack handlers %d", spec.Mode, spec.Conc, spec.PerIP, n, spec.Shutdown, out.idleAtShutdown, cm.closeErrs.Load(), cm.stNew.Load(), cm.stClosed.Load(), cm.stHijacked.Load(), cm.hjReturned.Load())
+		ctxd = fmt.Sprintf("mode=%s tls=%v(NextProto handler calls %d) timeouts=%v(deadline errors %d) Concurrency=%d MaxConnsPerIP=%d clients=%d shutdown=%v (idle keep-alive conns at Shutdown: %d) server-side Close errors=%d; ConnState new=%d closed=%d hijacked=%d; hijack handlers %d", spec.Mode, spec.TLS, cm.xCalls.Load(), spec.Timeouts, cm.deadlineErrs.Load(), spec.Conc, spec.PerIP, n, spec.Shutdown, out.idleAtShutdown, cm.closeErrs.Load(), cm.stNew.Load(), cm.stClosed.Load(), cm.stHijacked.Load(), cm.hjReturned.Load())
 		if phase == "quiescence" {
 			out.concAtQ, out.openAtQ = conc, open
 		}
 		if conc != 0 {
-			cm.violate("concurrency-counter-nonzero-at-quiescence", fmt.Sprintf("%s: GetCurrentConcurrency()=%d (as int32 %d) after every connection was closed/released, still after %v; %s", phase, conc, int32(conc), settleCap, ctxd))
+			cm.violate("concurrency-counter-nonzero-at-quiescence", fmt.Sprintf("%s: GetCurrentConcurrency()=%d (as int32 %d) after every connection was closed/released, still after %v; %s", phase, conc, int32(conc), capNow, ctxd))
 		}
 		if sum != 0 {
 			key := "perip-counter-nonzero-at-quiescence"
 			if spec.Shutdown && out.idleAtShutdown > 0 {
 				key = "perip-counter-nonzero-after-shutdown"
 			}
-			cm.violate(key, fmt.Sprintf("%s: per-IP counts {%s} after every connection was closed/released, still after %v; %s", phase, perip, settleCap, ctxd))
+			cm.violate(key, fmt.Sprintf("%s: per-IP counts {%s} after every connection was closed/released, still after %v; %s", phase, perip, capNow, ctxd))
 		}
 		switch {
 		case open == 0:
 		case open == -1 && (spec.Mode == "serveconn" || out.serveReturned):
 			cm.violate("open-count-minus-one-without-listening-serve", fmt.Sprintf("%s: GetOpenConnectionsCount()=-1 with no Serve loop listening and every connection closed (the getter subtracts the +1 of a listening Serve even when none is running); %s", phase, ctxd))
 		default:
-			cm.violate("open-counter-nonzero-at-quiescence", fmt.Sprintf("%s: GetOpenConnectionsCount()=%d after every connection was closed/released, still after %v; %s", phase, open, settleCap, ctxd))
+			cm.violate("open-counter-nonzero-at-quiescence", fmt.Sprintf("%s: GetOpenConnectionsCount()=%d after every connection was closed/released, still after %v; %s", phase, open, capNow, ctxd))
 		}
 	}
 	checkZero("quiescence")
@@ -1011,14 +1301,14 @@ func runCase(idx int, spec caseSpec) *caseOut {
 		for j := 0; j < spec.Burst2; j++ {
 			r := out.results[first+j]
 			switch {
-			case len(r.statuses) > 0 && r.statuses[0] == 200:
+			case r.xok || (len(r.statuses) > 0 && r.statuses[0] == 200):
 				out.burst2Served++
 			case len(r.statuses) > 0 && r.statuses[0] == 503:
 				out.burst2Rejected503++
 			}
 		}
 		if out.burst2Served > spec.Conc {
-			cm.violate("second-burst-served-exceeds-concurrency", fmt.Sprintf("after an idle gap of %d x MaxIdleWorkerDuration(%dms) on the running Serve loop, %d of %d simultaneously held connections were served (200) and only %d got 503, Concurrency=%d; handlers in the gate when it opened: %d; MaxConnsPerIP=%d", spec.GapDurations, spec.IdleWorkerMs, out.burst2Served, spec.Burst2, out.burst2Rejected503, spec.Conc, out.burst2Held, spec.PerIP))
+			cm.violate("second-burst-served-exceeds-concurrency", fmt.Sprintf("after an idle gap of %d x MaxIdleWorkerDuration(%dms) on the running Serve loop, %d of %d simultaneously held connections were served (200 / proto-x answer) and only %d got 503, Concurrency=%d; handlers in the gate when it opened: %d; MaxConnsPerIP=%d", spec.GapDurations, spec.IdleWorkerMs, out.burst2Served, spec.Burst2, out.burst2Rejected503, spec.Conc, out.burst2Held, spec.PerIP))
 		}
 		out.twoBurstDone = true
 		checkZero("after second burst")
@@ -1047,7 +1337,7 @@ func runCase(idx int, spec caseSpec) *caseOut {
 	for ip := 0; ip < spec.NIPs; ip++ {
 		i := n + ip
 		if !out.settleRefuted {
-			if !pollUntil(settleCap, func() bool {
+			if !pollUntil(time.Duration(curSettleCap.Load()), func() bool {
 				sum, _ := perIPSum(fasthttp.VerifPerIPCounts(s))
 				return sum == 0 && s.GetCurrentConcurrency() == 0
 			}) {
@@ -1109,7 +1399,7 @@ func runCase(idx int, spec caseSpec) *caseOut {
 			if es == fasthttp.ErrPerIPConnLimit.Error() {
 				want = 429
 			}
-			if r.observed && (len(r.statuses) != 1 || r.statuses[0] != want) {
+			if r.observed && !c.plan.PlainToTLS && (len(r.statuses) != 1 || r.statuses[0] != want) {
 				cm.violate(fmt.Sprintf("limit-error-without-%d-response", want), desc)
 			}
 		}
@@ -1117,8 +1407,15 @@ func runCase(idx int, spec caseSpec) *caseOut {
 			cm.nUnobserved.Add(1)
 			continue
 		}
+		if r.xok {
+			cm.nXOK.Add(1)
+			if h == 0 {
+				cm.violate("proto-x-answer-without-handler", desc)
+			}
+			continue
+		}
 		if len(r.statuses) == 0 {
-			if c.plan.Kind != "garbage" && r.eof {
+			if c.plan.Kind != "garbage" && r.eof && !(c.plan.DeadlineErr && spec.Timeouts) {
 				// a complete valid request was sent and the client waited: closing without any response is neither "served" nor "503/429"
 				cm.violate("closed-without-response", desc)
 			}
@@ -1183,7 +1480,7 @@ func bucket(n int) string {
 func TestC12(t *testing.T) {
 	r := mon.Start(t, "C12")
 	defer r.Finish()
-	r.Rule("case = one fasthttp.Server (Concurrency 1-4, MaxConnsPerIP 1-3 or off, ReduceMemoryUsage/KeepHijackedConns varied) used through Serve(in-memory listener) or through ServeConn from one goroutine per connection, hit by 8-64 client goroutines from 2-3 fake IPv4 addresses with seeded behaviours (1-3 sequential requests, gated request, pipelined pair, idle, partial request, hijack held on a gate, garbage, abort; every fifth server-side conn reports an error from Close, and any second Close of a socket reports one, as a real socket does) and seeded gate-opening order (one gate may open before the arrivals, the others only after every connection was accepted); a third of the Serve-mode cases end with Server.Shutdown() while 1..Concurrency keep-alive connections (one request served) are idle, with one gate opened only after Shutdown was called; half of the other Serve-mode cases are two-burst cases (MaxIdleWorkerDuration 20-50 ms; once the first workload is over and the counters read zero the running Serve loop idles for 4-6 durations so that the cleaner retires the workers, then Concurrency+1..5 connections arrive whose handlers are held on a gate of their own until all of them were accepted); after quiescence one probe connection per IP must be admitted on a new Serve cycle of the same Server (or through ServeConn); 4 cases run concurrently under one seeded sched.Perturber (wp.*, srv.* hook points). distinct = feature vector (mode, Concurrency, MaxConnsPerIP, client-count bucket, buckets of 503/429/hijack counts, handler peak reached Concurrency, per-IP peak reached the limit); non-trivial = at least one connection was rejected or a limit was reached")
+	r.Rule("case = one fasthttp.Server (Concurrency 1-4, MaxConnsPerIP 1-3 or off, ReduceMemoryUsage/KeepHijackedConns varied) used through Serve(in-memory listener) or through ServeConn from one goroutine per connection, hit by 8-64 client goroutines from 2-3 fake IPv4 addresses with seeded behaviours (1-3 sequential requests, gated request, pipelined pair, idle, partial request, hijack held on a gate, garbage, abort; every fifth server-side conn reports an error from Close, and any second Close of a socket reports one, as a real socket does) and seeded gate-opening order (one gate may open before the arrivals, the others only after every connection was accepted); a third of the Serve-mode cases end with Server.Shutdown() while 1..Concurrency keep-alive connections (one request served) are idle, with one gate opened only after Shutdown was called; half of the other Serve-mode cases are two-burst cases (MaxIdleWorkerDuration 20-50 ms; once the first workload is over and the counters read zero the running Serve loop idles for 4-6 durations so that the cleaner retires the workers, then Concurrency+1..5 connections arrive whose handlers are held on a gate of their own until all of them were accepted); a third of all cases are TLS cases (a NextProto handler for ALPN proto-x is registered; connections are a mix of plain HTTP/1, HTTP/1 over TLS and proto-x over TLS on the same Server - tls.Server over the in-memory conn in the listener, or *tls.Conn handed to ServeConn; also plain garbage sent to a TLS server side), a third set Read/WriteTimeout to 1h with Set*Deadline failing on every eighth connection (early-return paths), half of the ServeConn cases use Concurrency 1-2 with MaxConnsPerIP 1; after quiescence one probe connection per IP must be admitted on a new Serve cycle of the same Server (or through ServeConn); 4 cases run concurrently under one seeded sched.Perturber (wp.*, srv.* hook points). distinct = feature vector (mode, Concurrency, MaxConnsPerIP, client-count bucket, buckets of 503/429/hijack counts, handler peak reached Concurrency, per-IP peak reached the limit); non-trivial = at least one connection was rejected or a limit was reached")
 	r.Assume("gauges are lower bounds of what the server holds: a connection counts from the server's first Read on it until the server's Close (both inside the worker / ServeConn hold and inside the per-IP registration); handlers are a subset; hijacked connections leave the Concurrency gauge when their handler returns and the per-IP gauge only when the server closes them")
 	r.Assume("spurious rejections (503/429 although a slot was free, possible because tryAcquireConcurrency and Register over-count transiently) are not judged: the property only bounds from above")
 	r.Assume("one Server is used either through one Serve call or through ServeConn, not both at once and not with two listeners (each Serve call has its own pool of Concurrency workers and does not consult the shared counter): mixed use is excluded as caller-defined")
@@ -1191,13 +1488,15 @@ func TestC12(t *testing.T) {
 	r.Assume("probe connections are sent one at a time and only once VerifPerIPCounts is empty and GetCurrentConcurrency is 0, so a 429 (or, for ServeConn, a 503) cannot be explained by another live connection; a 503 to a Serve-mode probe is not judged (the previous probe's worker may not have re-entered the ready list yet)")
 	r.Assume("idle/partial/abort clients do not read, so a rejection sent to them is not observed (counted as conns_unobserved)")
 
-	n := r.N(450, 12000)
+	n := r.N(300, 8000)
 	const batchSize = 4
 	nb := (n + batchSize - 1) / batchSize
 	hits := map[string]int{}
 	aborted := false
 	var peakH, peakS int32
 	var slowest, totalMs float64
+	stuckBatches := 0
+	curSettleCap.Store(int64(settleCap))
 	for bi := 0; bi < nb && !aborted; bi++ {
 		var idxs []int
 		for i := bi * batchSize; i < (bi+1)*batchSize && i < n; i++ {
@@ -1237,7 +1536,7 @@ func TestC12(t *testing.T) {
 			aborted = true
 			break
 		}
-		stuck := false
+		stuck, hardStuck := false, false
 		for k, out := range results {
 			if out == nil {
 				continue
@@ -1262,7 +1561,7 @@ func TestC12(t *testing.T) {
 					r.Event("serveconn_err_perip_limit", c)
 				}
 			}
-			class := fmt.Sprintf("%s conc=%d perip=%d clients=%s 503=%s 429=%s hj=%s peakConc=%v peakIP=%v rm=%v shutdown=%v/%s late=%v twoburst=%v", spec.Mode, spec.Conc, spec.PerIP, bucket(len(spec.Clients)), bucket(n503), bucket(n429), bucket(hj), peakConc, peakIP, spec.ReduceMem, spec.Shutdown, bucket(out.idleAtShutdown), spec.LateGate >= 0, spec.TwoBurst)
+			class := fmt.Sprintf("%s conc=%d perip=%d clients=%s 503=%s 429=%s hj=%s peakConc=%v peakIP=%v rm=%v shutdown=%v/%s late=%v twoburst=%v tls=%v/%s to=%v", spec.Mode, spec.Conc, spec.PerIP, bucket(len(spec.Clients)), bucket(n503), bucket(n429), bucket(hj), peakConc, peakIP, spec.ReduceMem, spec.Shutdown, bucket(out.idleAtShutdown), spec.LateGate >= 0, spec.TwoBurst, spec.TLS, bucket(int(cm.xCalls.Load())), spec.Timeouts)
 			r.Case(class, n503 > 0 || n429 > 0 || peakConc || peakIP)
 			r.Event("client_conns", len(spec.Clients))
 			r.Event("handler_calls", int(cm.handlerCalls.Load()))
@@ -1284,6 +1583,22 @@ func TestC12(t *testing.T) {
 				r.Event("cases_perip_peak_eq_limit", 1)
 			}
 			r.Event("server_side_close_errors", int(cm.closeErrs.Load()))
+			r.Event("deadline_errors_injected", int(cm.deadlineErrs.Load()))
+			r.Event("nextproto_handler_calls", int(cm.xCalls.Load()))
+			r.Event("nextproto_answers_read", int(cm.nXOK.Load()))
+			if spec.TLS {
+				r.Event("tls_cases_"+spec.Mode, 1)
+				ntls := 0
+				for _, p := range spec.Clients {
+					if p.TLS {
+						ntls++
+					}
+				}
+				r.Event("tls_conns", ntls)
+				if spec.Shutdown && out.shutdownReturned && cm.xCalls.Load() > 0 {
+					r.Event("shutdown_returned_after_nextproto_conns", 1)
+				}
+			}
 			r.Event("probe_conns_admitted", out.probesOK)
 			if spec.Shutdown {
 				r.Event("shutdown_cases", 1)
@@ -1321,6 +1636,7 @@ func TestC12(t *testing.T) {
 			for _, s := range cm.incon {
 				r.Inconclusive(s)
 				stuck = true
+				hardStuck = stuckBatches >= 1 // watchdogs (30 s each) fired in two batches: stop
 			}
 			if out.settleRefuted {
 				// the verdict is recorded; every further case would spend the same 10 s cap
@@ -1347,8 +1663,13 @@ func TestC12(t *testing.T) {
 			}
 		}
 		if stuck {
-			r.Event("cases_skipped_after_stuck_or_refuted_case", n-(bi+1)*batchSize)
-			aborted = true
+			// a refuted/stuck batch costs its caps (10-30 s); three of them are enough evidence
+			stuckBatches++
+			curSettleCap.Store(int64(2 * time.Second))
+			if stuckBatches >= 8 || hardStuck {
+				r.Event("cases_skipped_after_stuck_or_refuted_case", n-(bi+1)*batchSize)
+				aborted = true
+			}
 		}
 	}
 	r.Set("hook_hits", hits)
@@ -1379,6 +1700,12 @@ func TestC12(t *testing.T) {
 		r.Require("server_side_close_errors", n)
 		r.Require("probe_conns_admitted", n)
 		r.Require("two_burst_cases", n/12)
+		r.Require("tls_cases_serve", n/12)
+		r.Require("tls_cases_serveconn", n/12)
+		r.Require("nextproto_handler_calls", n/3)
+		r.Require("nextproto_answers_read", n/4)
+		r.Require("shutdown_returned_after_nextproto_conns", n/60)
+		r.Require("deadline_errors_injected", n/4)
 		r.Require("second_burst_rejected_503", n/12)
 		r.Require("second_burst_cases_served_eq_concurrency", n/24)
 		r.Require("hook:wp.clean.unlocked", n/12)
